@@ -5,8 +5,9 @@ All models here are *opt-in* through scenario options, so that scenarios of othe
 * `exact_search=True`  -- `re.Pattern.search(s)` for a compiled pattern inside the exact fragment of libx_http1
   (literals, classes, greedy repeats, groups, `$` at the end; `\\d` only for bytes patterns or with re.ASCII) is the SMT
   regular-language membership   s in  Sigma* . L(p) . (\\n)?   (pattern ends with `$`)  or  Sigma* . L(p) . Sigma*.
-* `exact_strip=True`   -- `str.strip(chars)` / `bytes.strip(chars)` with a concrete, non-empty `chars`: exact
-  (s = p ++ r ++ q, p and q over `chars`, r neither starts nor ends with a character of `chars`); plus the fact that
+* `strip_facts=True`   -- `str.strip(chars)` / `bytes.strip(chars)` with a concrete, non-empty `chars`: the result stays
+  an uninterpreted function of s, constrained by true facts (over-approximation): it neither starts nor ends with a
+  character of `chars`, is s itself if s is already clean, one-character unfolding on either side; plus the fact that
   lower() commutes with strip(chars) when `chars` contains no cased character.
 * `rfind_uf=True`      -- `s.rfind(sub)` is the application of an uninterpreted function constrained by the same
   characterisation the default model states for a fresh integer (so that two runs on equal arguments agree by congruence).
@@ -129,15 +130,15 @@ _lib.lookup_function = _lookup_function_content
 
 
 # ---------------------------------------------------------------------------------------------------------------------
-# strip(chars) exact for a concrete char set (opt-in)
+# strip(chars) for a concrete char set: facts about the uninterpreted result (opt-in, over-approximate)
 
 for _T in (SStr, SBytes):
     def _mk_strip(T):
         default = METHODS[(T, "strip")]
 
-        def _strip_exact(it, s, *a):
+        def _strip_facts(it, s, *a):
             r = default(it, s, *a)
-            if not _opt(it, "exact_strip") or s.concrete() is not None or len(a) != 1:
+            if not _opt(it, "strip_facts") or s.concrete() is not None or len(a) != 1:
                 return r
             chars = a[0].concrete()
             if not chars:
@@ -146,21 +147,33 @@ for _T in (SStr, SBytes):
                 chars = chars.decode("latin-1")
             cls = z3.Union(*[z3.Re(z3.StringVal(c)) for c in chars]) if len(chars) > 1 else z3.Re(z3.StringVal(chars))
             full = z3.Full(z3.ReSort(_S))
-            p, q = it.fresh("str", "strip_l"), it.fresh("str", "strip_r")
-            it.ex.assume(s.t == z3.Concat(p.t, r.t, q.t))
-            it.ex.assume(z3.InRe(p.t, z3.Star(cls)))
-            it.ex.assume(z3.InRe(q.t, z3.Star(cls)))
-            it.ex.assume(z3.Not(z3.InRe(r.t, z3.Concat(cls, full))))
-            it.ex.assume(z3.Not(z3.InRe(r.t, z3.Concat(full, cls))))
-            it.ex.note("lib", f"{s.kind}.strip({chars!r}) (exact)")
+            f = r.t.decl()
+
+            def sw(t):
+                return z3.InRe(t, z3.Concat(cls, full))
+
+            def ew(t):
+                return z3.InRe(t, z3.Concat(full, cls))
+
+            def clean(t):
+                return z3.And(z3.Not(sw(t)), z3.Not(ew(t)))
+
+            n = z3.Length(s.t)
+            head, tail = z3.SubString(s.t, 1, n - 1), z3.SubString(s.t, 0, n - 1)
+            it.ex.assume(clean(r.t))                                   # the result neither starts nor ends with a stripped char
+            it.ex.assume(z3.Implies(clean(s.t), r.t == s.t))           # nothing to strip
+            it.ex.assume(z3.Implies(sw(s.t), r.t == f(head)))          # one unfolding on the left ...
+            it.ex.assume(z3.Implies(clean(head), f(head) == head))
+            it.ex.assume(z3.Implies(ew(s.t), r.t == f(tail)))          # ... and on the right
+            it.ex.assume(z3.Implies(clean(tail), f(tail) == tail))
+            it.ex.note("lib", f"{s.kind}.strip({chars!r}) (uninterpreted + facts: result clean, identity on clean input, one-character unfolding)")
             if all(c.lower() == c.upper() for c in chars):
                 lo = uf("lower", _S, _S)
-                sf = r.t.decl()
-                it.ex.assume(lo(r.t) == sf(lo(s.t)))
+                it.ex.assume(lo(r.t) == f(lo(s.t)))
                 it.ex.note("assumed", "lower() commutes with strip(chars) for uncased chars: s.strip(c).lower() == s.lower().strip(c)")
             return r
 
-        METHODS[(T, "strip")] = _strip_exact
+        METHODS[(T, "strip")] = _strip_facts
 
     _mk_strip(_T)
 
@@ -177,10 +190,11 @@ for _T in (SStr, SBytes):
                 return default(it, s, sub, *a)
             r = uf("rfind", _S, _S, _I)(s.t, sub.t)
             n, m = z3.Length(s.t), z3.Length(sub.t)
-            it.ex.assume(z3.If(z3.Contains(s.t, sub.t),
-                               z3.And(r >= 0, r + m <= n, z3.SubString(s.t, r, m) == sub.t,
-                                      z3.Not(z3.Contains(z3.SubString(s.t, r + 1, n), sub.t))),
-                               r == -1))
+            it.ex.assume(z3.If(m == 0, r == n,  # s.rfind("") == len(s)
+                               z3.If(z3.Contains(s.t, sub.t),
+                                     z3.And(r >= 0, r + m <= n, z3.SubString(s.t, r, m) == sub.t,
+                                            z3.Not(z3.Contains(z3.SubString(s.t, r + 1, n), sub.t))),
+                                     r == -1)))
             it.ex.note("lib", f"{s.kind}.rfind (uninterpreted function + last-occurrence characterisation)")
             return SInt(r)
 
